@@ -65,6 +65,12 @@ CLAIMED = {
   "note": "Trusted: Lean kernel + Mathlib field/order lemmas; the f64 digit-count estimate (recomputed with the same expression); text assembly is covered by correspondence and the reader, not by a theorem (read_render is future work); in bases >= 15 the marker e is a digit and the reader is told the mode.",
   "design_ref": "DESIGN.md §7 C05",
  },
+ "C06": {
+  "technique": "Lean 4 proof of the display path's arithmetic identities (derived-unit regrouping, SI prefix selection, gram/tonne and bit/byte rescaling, parenthesised dimensionality/quantity) + field-by-field correspondence of NumberParts and an independent value x factor x unit oracle",
+  "text": "For every sorted dimensionality and every derived unit, (v / u^i)[k] + i*u[k] = v[k] (divPow_get) and fast_decompose returns either its input or input / u^i with u's name inserted for a registered u and i in {-1,1,2} (fastDecompose_spec); the selected SI prefix satisfies shown * prefix^power = value with the printed unit prefix++unit or tonne (prefixSearch_sound); the kilogram->gram and bit->byte rescalings are exact; to_parts_digits always reports the result's own dimensionality and quantity; a conversion reply carries exactly the raw ratio, the target's names and the constant's numerator/denominator. The model of prettify, fast_decompose, pretty_unit, to_parts_digits, unit_to_string and Context::show is compared with the implementation on every field of NumberParts; independently, every numeral is re-read and numeral x factor / divfactor x product of the printed unit names (resolved by Context::lookup) is compared with the computed quantity (exact numerals: equal; approximate: within one last-digit unit).",
+  "note": "Trusted: Lean kernel + Mathlib; that prefix++unit names denote prefix x unit when read back rests on C07 (theorem for the order, exhaustive computation for the database); substance property rendering and unit-list entries are covered by the oracle in the C16/C09 streams, not by these theorems.",
+  "design_ref": "DESIGN.md §7 C06",
+ },
 }
 
 NOT_YET = {
